@@ -18,7 +18,7 @@ from py7zr.io import BytesIOFactory
 
 from checks.c01_roundtrip import is_kf03
 
-PASSWORDS = ["secret", "", "pässwörd", "\U0001f511key", "a", "Pass Word 123", "中文密码", "x" * 40]
+PASSWORDS = ["secret", "", "pässwörd", "\U0001f511key", "a", "Pass Word 123", "中文密码", "x" * 40, "re\u0301sume\u0301-42", "\u212bngstro\u0308m"]
 
 
 def marker(seed, n):
